@@ -1981,7 +1981,60 @@ def gen_rules():
 # --------------------------------------------------------------------------
 def gen_cycle():
     import extract3
-    toks = tokenize(strip_attrs_cfg(read('src/simple_cycle.rs')))
+    src = strip_attrs_cfg(read('src/simple_cycle.rs'))
+    toks = tokenize(src)
+    # ---- field roles from the struct definitions (names are free): the `Vec<usize>` field is the successor array, the public
+    #      `len` is the length (used by `clip_by_plane`), the remaining `usize` field is the start; the iterator holds a reference
+    #      to the cycle and a `usize`
+    import re as _re
+    m = _re.search(r"pub\s+struct\s+SimpleCycle\s*\{([^}]*)\}", src)
+    if not m:
+        raise Unparsed("struct SimpleCycle")
+    fdecl = [x.strip() for x in m.group(1).split(',') if x.strip()]
+    roles = {}
+    for d in fdecl:
+        nm, ty = [y.strip() for y in d.replace('pub ', '').split(':', 1)]
+        if ty.replace(' ', '') == 'Vec<usize>':
+            roles[nm] = 'ptrs'
+        elif ty == 'usize' and nm == 'len':
+            roles[nm] = 'len'
+        elif ty == 'usize':
+            roles[nm] = 'start'
+        else:
+            raise Unparsed("field %s : %s of SimpleCycle" % (nm, ty))
+    if sorted(roles.values()) != ['len', 'ptrs', 'start']:
+        raise Unparsed("fields of SimpleCycle")
+    mi = _re.search(r"pub\s+struct\s+(\w+)\s*<'a>\s*\{([^}]*)\}", src)
+    if not mi:
+        raise Unparsed("iterator struct")
+    iroles = {}
+    for d in [x.strip() for x in mi.group(2).split(',') if x.strip()]:
+        nm, ty = [y.strip() for y in d.replace('pub ', '').split(':', 1)]
+        if 'SimpleCycle' in ty:
+            iroles[nm] = 'simple_cycle'
+        elif ty == 'usize':
+            iroles[nm] = 'next'
+        else:
+            raise Unparsed("field %s : %s of the iterator" % (nm, ty))
+    if sorted(iroles.values()) != ['next', 'simple_cycle']:
+        raise Unparsed("fields of the iterator")
+    ITER = mi.group(1)
+
+    def rename_fields(node):
+        """canonical field names in the AST"""
+        if isinstance(node, tuple):
+            if node and node[0] == 'field' and isinstance(node[2], str):
+                base = rename_fields(node[1])
+                nm = node[2]
+                nm = roles.get(nm, iroles.get(nm, nm))
+                return ('field', base, nm)
+            if node and node[0] == 'struct':
+                return ('struct', node[1], [(roles.get(f, iroles.get(f, f)), rename_fields(v)) for f, v in node[2]], rename_fields(node[3]) if node[3] is not None else None)
+            return tuple(rename_fields(x) if isinstance(x, (tuple, list)) else x for x in node)
+        if isinstance(node, list):
+            return [rename_fields(x) for x in node]
+        return node
+
     structs = {'Cycle': {'ptrs': 'PTRS', 'start': 'N', 'len': 'N'},
                'CycleIter': {'simple_cycle': 'Cycle', 'next': 'N'}}
     out = ["namespace Cycle\n"]
@@ -1989,7 +2042,7 @@ def gen_cycle():
     def fn(name):
         params, body, _ = find_fn(toks, name)
         ps = params_of(params)
-        blk = parse_body(body)
+        blk = rename_fields(parse_body(body))
         return ps, (blk[0], extract3.unroll_literal_loops(blk[1]), blk[2])
 
     def args_of(ps):
@@ -2004,7 +2057,13 @@ def gen_cycle():
         me = " (self_ : %s)" % selfty if any(n == 'self' for n, _ in ps) else ''
         out.append("/-- `%s` -/\ndef %s%s%s : %s :=\n%s\n" % (doc, lean, me, sig, ret_ty, '\n'.join(lines)))
 
-    imp = extract3.Imp('Cycle', structs, {'contains': 'B'}, 'Cycle.')
+    # the private membership test may have any name: the `fn NAME(&self, _: usize) -> bool` of the file
+    mc = _re.search(r"fn\s+(\w+)\s*\(\s*&self\s*,\s*\w+\s*:\s*usize\s*\)\s*->\s*bool", src)
+    if not mc:
+        raise Unparsed("membership test")
+    CONTAINS = mc.group(1)
+    imp = extract3.Imp('Cycle', structs, {CONTAINS: 'B'}, 'Cycle.')
+    imp.pure_name = lambda n: 'contains' if n == CONTAINS else n
     value = lambda env, v: imp.expr(v, env)[0]
 
     def ret_self(env, v):
@@ -2026,7 +2085,7 @@ def gen_cycle():
     lines = imp.block(blk[1], blk[2], env, lambda env, v: value(env, v), '  ')
     defn('new', 'SimpleCycle::new', ps, 'Cycle', lines)
     # contains (before its users)
-    ps, blk = fn('contains')
+    ps, blk = fn(CONTAINS)
     env = dict({n: 'N' for n in args_of(ps)}, self='Cycle')
     defn('contains', 'SimpleCycle::contains', ps, 'Bool', imp.block(blk[1], blk[2], env, lambda env, v: value(env, v), '  '))
     # grow, init
@@ -2044,6 +2103,8 @@ def gen_cycle():
     if blk[1] or blk[2] is None or blk[2][0] != 'struct' or blk[2][3] is not None:
         raise Unparsed("iter body")
     fields = dict(blk[2][2])
+    if blk[2][1] != [ITER]:
+        raise Unparsed("iter returns another type")
     if sorted(fields) != ['next', 'simple_cycle'] or fields['simple_cycle'] != ('path', ['self']):
         raise Unparsed("iterator fields")
     t, ty = imp.expr(fields['next'], {'self': 'Cycle'})
